@@ -393,12 +393,15 @@ def run(model, tier="quick"):
 
 
 MANIFEST = {
-    "technique": "formula identity against LiquidityAmounts references (value numbering), sibling agreement of sqrt-price derivations, ledger identity of add/remove",
+    "technique": "formula identity against LiquidityAmounts references (value numbering), sibling agreement of sqrt-price derivations, ledger identity of add/remove, sign / monotone-rewriting derivations on the canonical rational forms (no solver), shared-state rule (R-FRESH)",
     "claim": "The amount/liquidity formulas, their three-way split with MIN in range and zeros off side, floors and "
              "truncation, new/close position and the add/remove ledgers are identical as canonical expressions to "
              "references written from the Uniswap v3 formulas; every sqrt-price derivation in the market uses the same "
-             "arguments. Over-spend freedom up to the floors, one-sidedness, proportionality and same-price round trip follow "
-             "from these identities for every input.",
-    "note": "Trusted: references in sa/props/C07.py; TickMath itself is C06. Not decided: maximality and monotonicity as "
-            "inequalities, Decimal precision.",
+             "arguments. From the canonical forms of the code itself (not of the reference) the check derives, by exact sign "
+             "arguments under the path guards: amounts are non-negative, token0 is non-increasing and token1 non-decreasing in "
+             "price, both are continuous at the range bounds, and the amounts consumed by add-liquidity are bounded above by "
+             "the amounts offered (upper bounds through floor / int / min). One-sidedness, proportionality and the same-price "
+             "round trip follow from the identities for every input.",
+    "note": "Trusted: references in sa/props/C07.py; TickMath itself is C06. Not decided: maximality of the liquidity, "
+            "Decimal precision.",
 }
